@@ -101,6 +101,18 @@ def _mode_change_and_width(ctx, rep):
 
 
 def check(ctx, rep):
+    # VIEW PRINT homes the cursor into the new window and leaves the overflow state (a full row printed with `;` before it
+    # would otherwise put the next character in column 2 while POS reports 1)
+    vp_ = ctx.fn(TS + ':TextScreen.view_print_')
+    ovf = [a for a in own_nodes(vp_) if isinstance(a, ast.Assign) and norm(a.targets[0]) == 'self.overflow' and norm(a.value) == 'False']
+    rep.ob('window.view-print-leaves-overflow', 'view_print_ resets the overflow state', len(ovf) >= 1, '', ctx.where(vp_))
+    # the bottom-row latch (LOCATE 25,x) is released as soon as the cursor is on any other row
+    wn = ctx.fn(TS + ':TextScreen._wrap_around_and_scroll_as_needed')
+    flw = ctx.flow(wn)
+    rel = [a for a in own_nodes(wn) if isinstance(a, ast.Assign) and norm(a.targets[0]) == 'self._bottom_row_allowed' and norm(a.value) == 'False']
+    facts = [sorted((f.text, f.pol) for f in flw.facts(a)) for a in rel]
+    rep.ob('window.bottom-row-latch-released-off-the-row', '_wrap_around_and_scroll_as_needed clears the latch whenever the row is not the bottom row',
+           facts == [[('self._bottom_row_allowed', True), ('self.current_row == self.mode.height', False)]], repr(facts), ctx.where(wn))
     _mode_change_and_width(ctx, rep)
     from ..optargs import check as _optargs
     _optargs(ctx, rep, ['pcbasic/basic/display/textscreen.py', 'pcbasic/basic/console.py', 'pcbasic/basic/display/display.py'], 3,
@@ -268,6 +280,10 @@ def _drop_last_wrap(fn):
 
 def variants(ctx):
     return _variants0(ctx) + [
+        mu.Variant('view-print-keeps-overflow-state', 'break', 'pcbasic/basic/display/textscreen.py',
+                   lambda tree: mu.remove_stmt(mu.find_def(tree, 'TextScreen.view_print_'), mu.text_is('self.overflow = False')), expect='window.view-print-leaves-overflow'),
+        mu.Variant('bottom-row-latch-released-only-below-the-screen', 'break', 'pcbasic/basic/display/textscreen.py',
+                   lambda tree: _latch_late(mu.find_def(tree, 'TextScreen._wrap_around_and_scroll_as_needed')), expect='window.bottom-row-latch-released-off-the-row'),
         mu.Variant('cursor-homed-before-window-reset', 'break', 'pcbasic/basic/display/textscreen.py',
                    lambda tree: _swap_last_two(mu.find_def(tree, 'TextScreen.init_mode')), expect='mode-change.window-reset-before-home'),
         mu.Variant('key-bar-redrawn-before-the-cursor-is-homed', 'break', 'pcbasic/basic/display/textscreen.py',
@@ -296,4 +312,13 @@ def _bar_first(fn):
     st = fn.body.pop(ib[0])
     fn.body.insert(ia[0], st)
     return True
+
+
+def _latch_late(fn):
+    for i in ast.walk(fn):
+        if isinstance(i, ast.If) and norm(i.test) == 'self.current_row == self.mode.height' and i.orelse and not isinstance(i.orelse[0], ast.If):
+            i.orelse = [ast.If(test=ast.parse('self.current_row > self.mode.height', mode='eval').body, body=i.orelse, orelse=[])]
+            ast.fix_missing_locations(fn)
+            return True
+    return False
 
